@@ -65,17 +65,29 @@ def gen_case(rng, cid):
     return "\n".join(ls)
 
 
-def d11_signature(case, out):
-    """a read in the concurrent group (racing with an overwrite/collection) fails although every sequential order gives a value"""
+def d11b_signature(case, out):
+    """a GetKeys in the concurrent group (racing with an overwrite/collection) lists fewer keys than EVERY sequential order
+    gives, every listed key is listed by some sequential order, and every other result equals one sequential order"""
     groups = PC.groups_of(case)
-    ops = [l for l in case.split("\n") if not l.startswith("keytab")]
     i = PC.par_index(case) - 1
     res = [r.strip() for r in out[i].split("||")]
     alts = PC.all_sequential_outputs(case)
-    for gi, (g, r) in enumerate(zip(groups, res)):
-        if g.startswith("get") and r == "err NotFound":
-            if all(a[i].split(" || ")[gi].startswith("val ") for a in alts) and any(x.startswith(("gc", "set", "del", "commit")) for x in groups):
-                return True
+    if not any(x.startswith(("gc", "set", "del", "commit")) for x in groups):
+        return False
+    for a in alts:
+        ares = [r.strip() for r in a[i].split("||")]
+        if a[:i] + a[i + 1:] != out[:i] + out[i + 1:]:
+            continue
+        ok, deviates = True, False
+        for g, r, ar in zip(groups, res, ares):
+            if r == ar:
+                continue
+            if g.startswith("keys") and r.startswith("keys") and ar.startswith("keys") and set(r.split()[1:]) < set(ar.split()[1:]):
+                deviates = True
+            else:
+                ok = False
+        if ok and deviates:
+            return True
     return False
 
 
@@ -86,23 +98,30 @@ def run(rep):
     fsdbh = C.ensure_harness()
     sk = LS.check(rep, fsdbh, ["Store", "UpdateTx", "DeleteOld", "DeleteTx", "Get", "GetFiles"])
     known = {f["id"]: f for f in C.known_findings("C06") if f.get("status") == "open"}
-    # 1. the scripted witness of C06_read_atomic_refuted
-    wit = [c for c in P.corpus("conc_witnesses.txt") if c.split("\n")[0].split()[1] == "d11"]
+    # 1. the scripted witnesses: C06_read_atomic_refuted_orig (Get; repaired: the read must return a value now) and
+    #    C06_keys_atomic_refuted (GetKeys; known finding D11b)
+    wit = [c for c in P.corpus("conc_witnesses.txt") if c.split("\n")[0].split()[1] in ("d11", "d11b")]
     wout = H.run_sharded(fsdbh, "hist", wit, shards=1)
     reproduced = {}
     for c, o in zip(wit, wout):
+        cid = c.split("\n")[0].split()[1]
         ops = [l for l in c.split("\n") if not l.startswith("keytab")]
         if any(r in ("AWAIT-TIMEOUT", "WAIT-TIMEOUT") or r.startswith("PANIC") for r in o):
             raise C.CheckBroken("scripted schedule did not run as scripted: %s" % o)
         r = o[ops.index("wait R")]
-        if r == "err NotFound":
-            reproduced["D11"] = r
-            if "D11" in known:
-                rep.known_finding("D11: %s (scripted schedule reproduced)" % known["D11"]["what"])
-            else:
-                rep.violation(dict(kind="oracle", what="a read of a key that had a value throughout returned ErrNotFound", case=c, impl=o))
-        elif not r.startswith("val "):
-            rep.violation(dict(kind="oracle", what="read returned %s" % r, case=c, impl=o))
+        if cid == "d11":
+            if not r.startswith("val "):
+                rep.violation(dict(kind="oracle", what="a read of a key that had a value throughout returned %s (look-up, then overwrite + "
+                                   "collection, then fetch: the repaired read resolves the version again)" % r, case=c, impl=o))
+        else:
+            if r.strip() == "keys":
+                reproduced["D11b"] = r
+                if "D11b" in known:
+                    rep.known_finding("D11b: %s (scripted schedule reproduced)" % known["D11b"]["what"])
+                else:
+                    rep.violation(dict(kind="oracle", what="GetKeys omitted a key that had a value throughout", case=c, impl=o))
+            elif r.strip() != "keys 1":
+                rep.violation(dict(kind="oracle", what="GetKeys returned %s" % r, case=c, impl=o))
     # 2. concurrent groups under the real scheduler: linearizability against the model
     n = 1000 if rep.tier == "quick" else 8000
     if LS.broken(sk):
@@ -119,8 +138,8 @@ def run(rep):
         perm = PC.match_sequential(c, o)
         if perm is None:
             unmatched += 1
-            if "D11" in known and d11_signature(c, o):
-                rep.known_finding("D11: %s (hit by an un-paused race: case %s)" % (known["D11"]["what"], c.split("\n")[0]))
+            if "D11b" in known and d11b_signature(c, o):
+                rep.known_finding("D11b: %s (hit by an un-paused race: case %s)" % (known["D11b"]["what"], c.split("\n")[0]))
             else:
                 rep.violation(dict(kind="oracle", what="the concurrent operations are not linearizable: the results and the final "
                                    "state equal no sequential order", case=c, impl=o))
@@ -128,7 +147,7 @@ def run(rep):
             orders[len(perm)] = orders.get(len(perm), 0) + 1
     rep.coverage.update(
         evaluations=len(cases) + len(wit), distinct_nontrivial=len({C.case_hash(c) for c in cases}),
-        rule="(1) the scripted schedule of C06_read_atomic_refuted through pause point get.afterLookup; (2) seeded programs of 2-4 "
+        rule="(1) the scripted schedules of C06_read_atomic_refuted_orig and C06_keys_atomic_refuted through the pause points get.afterLookup / getkeys.afterLookup; (2) seeded programs of 2-4 "
              "concurrent operations (autocommit and RU/RC-transaction Set/Delete/Get/GetKeys, Commit/Rollback, a collection pass; one "
              "goroutine per transaction) on 1-2 shared keys under the real scheduler, followed by reads of everything, a drain and a "
              "collection: results and final state must equal ONE sequential order of the group in the model (linearizability with the "
@@ -136,7 +155,7 @@ def run(rep):
         group_sizes=sizes, linearized=orders, unmatched=unmatched, witnesses_reproduced=reproduced,
         traces_validated_against_impl=len(cases) + len(wit),
         samples=[dict(case=cases[0].split("\n"), impl=impl[0])],
-        refuted_theorems=["C06_read_atomic_refuted"], partial_theorems=["C06_read_linearizable_partial"], proof_ok=proof_ok)
+        refuted_theorems=["C06_read_atomic_refuted_orig (repaired)", "C06_keys_atomic_refuted (known finding D11b)"], partial_theorems=["C06_read_linearizable_partial", "C06_keys_linearizable_partial"], proof_ok=proof_ok)
     LS.conclude(rep, sk, 'strictly increasing acquisition order and one critical section per operation: C06_acquisitions_ordered, C06_one_critical_section')
     rep.assumptions = ["a critical section under a Go mutex is one atomic step (C06_atomic_steps_linearize is about sequences of such steps); "
                        "interleavings inside a step, RWMutex writer preference and torn reads of unprotected memory (C15) are outside the model",
